@@ -129,6 +129,19 @@ CLAIMED["C40"] = ("concolic execution (pysym+z3) of TreeClass.aset with a symbol
                   "bounded SMT verification: for every addressable path (symbolic selector, 36-61 nodes per template) and all leaf values the result has the same type, equals an independent functional update, and the original is unchanged (identity of containers and leaves); bad paths raise and leave the original untouched",
                   "four templates; tuples/arrays as indexed containers out of scope; most leaf equalities are structural (decided before the solver), 128 selector-level obligations are non-trivial", "4/C40")
 
+CLAIMED["C07"] = ("jaxpr->SMT (z3) of the three stopping predicates after the real setup with symbolic Int time, symbolic energy / detector trace / thresholds / min and max steps; and of run_fdtd's loop with a symbolic stop table",
+                  "bounded SMT verification: every predicate stops at t >= min(max_steps, total steps), continues below min_steps and in between continues exactly while energy / spectral distance >= threshold, for all integer t and real inputs; run_fdtd halts at the first step at which the condition reports stop, never beyond the total, with the state of a plain run of that many steps",
+                  "reals for floats; loop layer T <= 5; detector distance value only for 2 samples per period (4 left z3 unknown, outside)", "4/C07")
+CLAIMED["C30"] = ("jaxpr->SMT (z3) of Recorder.init_state/compress/decompress with the recorded value at every step symbolic; QF_FP lemmas for widening dtype round trips",
+                  "bounded SMT verification: for every T <= 40, k <= 8, every start step and every query time t >= start, decompress returns the recorded value at saved steps and the exact linear interpolation between the enclosing saved steps otherwise (1e-6, boxed history); widening conversions (f16/bf16/f32 -> f32/f64, c64 -> c128) round-trip exactly (z3 floating-point theory)",
+                  "quick: T in {1,2,3,5,8,12}, k <= 4; chained time filters and sharded states out of scope", "4/C30")
+CLAIMED["C31"] = ("concolic execution (pysym+z3) of _export_json / _import_obj_from_json on 47 templates with symbolic leaves; JSON codec replaced by its contract",
+                  "bounded SMT verification, structural and weak (says so): the exported tree contains only JSON values with string keys and the re-imported object has the same class and equal public fields for all leaf values; one concrete end-to-end scene is placed on both sides and compared",
+                  "every solver obligation is a leaf identity (nontrivial = 0); json.dumps/loads stubbed by their contract", "4/C31")
+CLAIMED["C43"] = ("jaxpr->SMT (z3) of Sphere / Cylinder get_voxel_mask_for_shape with symbolic positive radii on dyadic uniform and non-uniform grids",
+                  "bounded SMT verification: a cell is marked exactly when its centre (from the harness's own edges) lies strictly inside the analytic ellipsoid / cylinder, for all positive radii (strictness at the surface decided exactly on dyadic grids)",
+                  "ExtrudedPolygon delegates to matplotlib's compiled path code: NOT covered; grids <= 5^3", "4/C43")
+
 NOT_APPLICABLE = {
     "C12": "numerical accuracy bound (1e-6 residual energy after >=1e3 steps on >=40^3 cells in floating point); no algebraic identity, far beyond any bounded real-arithmetic encoding",
     "C13": "1e-3 power-ratio bound after hundreds of steps (TFSF leakage is small but non-zero by design); not an identity, out of reach for bounded real arithmetic",
